@@ -153,7 +153,19 @@ def build_stanza(d, seq=1):
     if tag == "other":
         return N(TAGS[tag], {"id": i})
     if tag == "receipt":
-        return N("receipt", {"id": i, "from": JID, "t": "1500000000"})
+        attrs = {"id": i, "from": JID, "t": "1500000000"}
+        rt = d.get("rtype")
+        if rt and rt != "delivery":
+            attrs["type"] = rt
+        if d.get("participant"):
+            attrs["from"] = GJID
+            attrs["participant"] = JID
+        kids = []
+        if rt == "retry":
+            kids = [N("retry", {"count": "1", "t": "1500000000", "id": i, "v": "1"}), N("registration", data=b"\x00\x00\x30\x39")]
+        elif d.get("rlist"):
+            kids = [N("list", {}, [N("item", {"id": i + "-b"})])]
+        return N("receipt", attrs, kids)
     if tag == "ack":
         return N("ack", {"id": i, "from": JID, "class": "message", "t": "1500000000"})
     if tag == "presence":
